@@ -2387,20 +2387,26 @@ class Kconfig(object):
                     if sym.orig_type is STRING:
                         match = _conf_string_match(val)
                         if not match:
+                            # Recorded while the option had another type: whatever
+                            # it is now, its value in the header changed
+                            self._touch_with_aliases(path, name)
                             continue
                         val = unescape(match.group(1))
 
                     sym._old_val = val
                 else:
                     # Flag that the symbol no longer exists, in
-                    # case something still depends on it
-                    _touch_dep_file(path, name)
+                    # case something still depends on it. Its deprecated
+                    # aliases disappear from the generated header together
+                    # with it, flag them as well.
+                    self._touch_with_aliases(path, name)
 
-                    # Its deprecated aliases disappear from the generated
-                    # header together with it, flag them as well.
-                    if self._deprecated_options:
-                        for dep_name in self._deprecated_options.get_deprecated_option(name):
-                            _touch_dep_file(path, dep_name)
+    def _touch_with_aliases(self, path, name):
+        # _load_old_vals() helper
+        _touch_dep_file(path, name)
+        if self._deprecated_options:
+            for dep_name in self._deprecated_options.get_deprecated_option(name):
+                _touch_dep_file(path, dep_name)
 
     def _write_old_vals(self, path):
         # Helper for writing auto.conf. Basically just a simplified
